@@ -4050,7 +4050,9 @@ class LoopNode(ActionSinkNode, ActionSourceNode):
             for trans in accept_state.transitions:
                 if trans.error_handling:
                     trans.handles_else(False).fallthrough().to(sub_dfa.starting_state).attach(*self.loop_start_actions)
-            if not accept_state.transitions:
+            if accept_state[DFTransition.Else] is None:
+                # (also when the final node can only go on matching, e.g. a greedy case clause that is a prefix of another: whatever
+                # does not continue the match starts the next iteration)
                 accept_state[DFTransition.Else] = DFTransition(fallthrough=True).to(sub_dfa.starting_state).attach(*self.loop_start_actions)
 
         for state in sub_dfa.states:
